@@ -20,6 +20,7 @@ type file struct {
 }
 
 func (p *Parser) loadFile(path string, child *file) (*file, error) {
+	verifEvent("load", path, "")
 	f := &file{
 		id:    path,
 		child: child,
@@ -94,6 +95,7 @@ func (p *Parser) loadFile(path string, child *file) (*file, error) {
 }
 
 func (p *Parser) loadFileAndParents(path string, child *file) ([]*file, error) {
+	verifStep(verifSiteLoadFileAndParents)
 	// A file that is (transitively) its own parent would recurse forever.
 	for c := child; c != nil; c = c.child {
 		if c.loadPath == path {
